@@ -321,6 +321,13 @@ ObsFormat ==
   /\ IF Ev.ok THEN UNCHANGED <<viol, bad>> ELSE /\ V("FormatMismatch") /\ bad' = TRUE
   /\ Same
 
+(* C08: a value returned by Get must not change under the caller when later calls are made *)
+ObsAlias ==
+  /\ Live("alias")
+  /\ nobs' = nobs + 1
+  /\ IF Ev.ok THEN UNCHANGED <<viol, bad>> ELSE /\ V("StableAliased") /\ bad' = TRUE
+  /\ Same
+
 (* events that carry no contract content (notes of the harness) *)
 Note ==
   /\ l <= Len(Trace) /\ ~bad /\ Ev.ev \in {"note", "none"} /\ Adv
@@ -334,7 +341,7 @@ Finish ==
 
 Next == \/ Reset \/ Mark \/ Restore \/ Unmark \/ Skip
         \/ Store \/ Delete \/ SetK \/ Crash \/ Open \/ Close \/ FaultsCleared \/ Panic
-        \/ ObsFirst \/ ObsLast \/ ObsGet \/ ObsGetK \/ ObsDir \/ ObsCreat \/ ObsMetrics \/ ObsFormat \/ Note
+        \/ ObsFirst \/ ObsLast \/ ObsGet \/ ObsGetK \/ ObsDir \/ ObsCreat \/ ObsMetrics \/ ObsFormat \/ ObsAlias \/ Note
         \/ Finish
 
 Spec == Init /\ [][Next]_vars
